@@ -623,15 +623,34 @@ def records_with_array_fields_in_files():
             out.append(Case(J(L), limits=dict(steps=10000), meta=dict(gen='records-with-array-fields-in-files', sample=False)))
     return out
 
+LEX_FAILS = ['1 + $', '7 - "abc', '"n=" & @', 'FALSE AND #', '"bad \\q escape"', "'ab'", "'", 'x == 1', 'OUTPUT("x")', '"open \\', '12 + "ab\\', 'LENGTH("abc" & "de', '3 * (4 + ~)', 'y <- "p" & "q']
+LEX_PROBES = ['2 * 3', '"hello"', 'LENGTH("hello")', "'c'", '1 / 0', '1 + 2', 'IS_NUM("42")', 'MID("abcdef", 2, 3)', 'TO_UPPER("abc")', 'STR_TO_NUM("7.5")', 'LEFT("abc", 1) & RIGHT("abc", 2)',
+              'TRUE AND FALSE', '12', 'x <- 4', 'x', 'OUTPUT "out ", 1']
+def lexer_failure_then_probe(rng):
+    """REPL: an entry rejected by the lexer (after some tokens, inside a string or character literal, at an escape), then entries of every token
+    kind: nothing of the rejected entry may survive into the next one"""
+    out = []
+    for fail in LEX_FAILS:
+        ent = ['x <- 1', 'PROCEDURE Keep()', '  OUTPUT "kept"', 'ENDPROCEDURE', '']
+        for probe in LEX_PROBES:
+            ent += [fail, probe]
+        ent += ['CALL Keep()', fail, fail, '"twice"']
+        out.append(Case(mode='repl', stdin=J(ent), limits=dict(steps=20000), meta=dict(gen='lexer-failure-then-probe', sample=False)))
+    mixed = []
+    for _ in range(60):
+        mixed += [rng.choice(LEX_FAILS), rng.choice(LEX_PROBES)]
+    out.append(Case(mode='repl', stdin=J(mixed), limits=dict(steps=20000), meta=dict(gen='lexer-failure-then-probe', sample=False)))
+    return out
+
 def extra(pid, tier, rng):
     """the families each property's check runs in addition to its own generators"""
     if pid == 'C01':
         c = alias_then_replace() + shadowed_types() + deref_node_reuse() + far_seek() + far_dates_output() + far_dates_files()[0] + pedantic_tail_with_files() \
             + array_cross_types() + redeclared_bounds(rng) + scope_change_in_activation(rng) + empty_comment_faults()[:40] + call_type_matrix()
-        c += side_effects_in_subexpressions() + array_scope_matrix()[::3] + scalar_and_array_share_a_name() + pointer_to_implicit_record() + failing_record_creation() + runfile_with_handles() + declaredness_changes_per_activation()[::2] + records_with_array_fields_in_files()
+        c += lexer_failure_then_probe(rng) + side_effects_in_subexpressions() + array_scope_matrix()[::3] + scalar_and_array_share_a_name() + pointer_to_implicit_record() + failing_record_creation() + runfile_with_handles() + declaredness_changes_per_activation()[::2] + records_with_array_fields_in_files()
         c += rng.sample(retyped_sites(rng, n_orders=1), 40) + rng.sample(nested_undeclared(rng), 20) + undeclared_field_vs_names()[::3]
         return c
-    if pid == 'C02': return concat_matrix() + retyped_sites(rng, ['plus', 'minus', 'div', 'concat', 'less', 'not', 'and', 'length', 'mid'])
+    if pid == 'C02': return lexer_failure_then_probe(rng) + concat_matrix() + retyped_sites(rng, ['plus', 'minus', 'div', 'concat', 'less', 'not', 'and', 'length', 'mid'])
     if pid == 'C03': return retyped_sites(rng, ['while', 'repeat', 'if', 'case', 'for', 'forstep', 'not']) + shadowed_condition(rng)
     if pid == 'C04': return array_scope_matrix() + side_effects_in_subexpressions() + call_type_matrix() + scope_change_in_activation(rng) + nested_undeclared(rng) + alias_then_replace()
     if pid == 'C05': return call_type_matrix() + array_cross_types() + retyped_sites(rng, ['store', 'byval', 'fn', 'index']) + shadowed_types()
@@ -644,11 +663,12 @@ def extra(pid, tier, rng):
         for x in c: x.meta['relevant'] = ('stdout', 'exit', 'diags')
         return c
     if pid == 'C11': return far_lines() + far_lines(runtime=True) + empty_comment_faults() + failing_record_creation()
-    if pid == 'C12': return failing_record_creation() + runfile_with_handles()
+    if pid == 'C12': return lexer_failure_then_probe(rng) + failing_record_creation() + runfile_with_handles()
     if pid == 'C13': return far_dates_files()[0] + records_with_array_fields_in_files() + scalar_and_array_share_a_name()
     if pid == 'C14': return far_seek() + records_with_array_fields_in_files()
     if pid == 'C15': return far_dates_files()[0] + far_dates_output()
     if pid == 'C16': return pedantic_tail_with_files() + side_effects_in_subexpressions() + runfile_with_handles()
+    if pid == 'C17': return lexer_failure_then_probe(rng)
     if pid == 'C18': return far_dates_output()
     if pid == 'C19': return array_cross_types() + shadowed_types()
     if pid == 'C20': return nested_undeclared(rng) + shadowed_condition(rng) + pedantic_tail_with_files() + declaredness_changes_per_activation()
